@@ -8,13 +8,25 @@ namespace Ledger.Repl
     current epoch lie at or beyond `m`: ids `≤ m` can no longer be delivered by the
     pipeline's own activity. -/
 def StuckBeyond (m : Nat) (s : State) : Prop :=
-  (∀ b ∈ s.recv, m ≤ b.1) ∧
+  (∀ b ∈ s.recv, m ≤ b.1) ∧ (∀ k ∈ s.acked, m < k) ∧
     ∃ h, s.handler = some h ∧ m ≤ h.last ∧ h.stopReq = false ∧ PcOk s.nLogs h
+
+theorem stuck_setHandler {m : Nat} {s : State} {h' : Handler} (hr : ∀ b ∈ s.recv, m ≤ b.1)
+    (ha : ∀ k ∈ s.acked, m < k) (hm : m ≤ h'.last) (hns : h'.stopReq = false) (hok : PcOk s.nLogs h') :
+    StuckBeyond m { s with handler := some h' } := ⟨hr, ha, h', rfl, hm, hns, hok⟩
+
+theorem stuck_exportDone {c : Cfg} {m : Nat} {s1 : State} {h : Handler} {hi : Nat} {more : Bool}
+    (hr : ∀ b ∈ s1.recv, m ≤ b.1) (ha : ∀ k ∈ s1.acked, m < k) (hm : m ≤ hi) (hns : h.stopReq = false) :
+    StuckBeyond m (exportDone c s1 h hi more) := by
+  have hr' : ∀ a b, (a, b) ∈ s1.recv → m ≤ a := fun a b hab => hr (a, b) hab
+  unfold exportDone
+  split
+  · cases more <;> simp [afterSend, atSelect, hns, StuckBeyond, ack, PcOk] <;> exact ⟨hr', ha, hm⟩
+  · simp [StuckBeyond, ack, PcOk, hns]; exact ⟨hr', ha, hm⟩
 
 theorem stuck_step {c : Cfg} {m : Nat} {s s' : State} {l : Label} (hs : step c s l = some s')
     (hp : l.progress = true) (st : StuckBeyond m s) : StuckBeyond m s' := by
-  obtain ⟨hrecv, h, hh, hm, hns, hok⟩ := st
-  have hrecv' : ∀ a b, (a, b) ∈ s.recv → m ≤ a := fun a b hab => hrecv (a, b) hab
+  obtain ⟨hrecv, hacked, h, hh, hm, hns, hok⟩ := st
   cases l with
   | fetch ok =>
     cases ok with
@@ -24,38 +36,54 @@ theorem stuck_step {c : Cfg} {m : Nat} {s s' : State} {l : Label} (hs : step c s
       split at hs
       · split at hs
         · simp [atSelect, hns] at hs; subst hs
-          simp [StuckBeyond, PcOk]
-          exact ⟨hrecv', hm, by omega⟩
+          exact stuck_setHandler hrecv hacked hm (by simp [hns])
+            (by simp only [PcOk, enterExport]; exact ⟨trivial, by omega, by omega, by omega, by omega⟩)
         · simp [atSelect, hns] at hs; subst hs
-          simp [StuckBeyond, PcOk]
-          exact ⟨hrecv', hm⟩
+          exact stuck_setHandler hrecv hacked hm (by simp [hns]) (by simp [PcOk])
       · simp at hs
   | accept r =>
     cases r with
     | ok =>
       simp only [step, hh] at hs
       split at hs
-      · rename_i lo hi more hpc
+      · rename_i lo hi more pos bad hpc
         simp only [PcOk, hpc] at hok
+        obtain ⟨hlo, hlt, hle, hlp, hph⟩ := hok
+        have hb := chunkEnd_bounds (c := c) hph
+        have hr1 : ∀ b ∈ (exporterCall s pos (chunkEnd c pos hi) .ok).recv, m ≤ b.1 := by
+          intro b hb'
+          simp only [exporterCall, ackItems, deliver] at hb'
+          rcases List.mem_cons.mp hb' with e | e
+          · subst e; simp; omega
+          · exact hrecv b e
+        have ha1 : ∀ k ∈ (exporterCall s pos (chunkEnd c pos hi) .ok).acked, m < k := by
+          intro k hk
+          simp only [exporterCall, ackItems, deliver] at hk
+          rcases List.mem_append.mp hk with e | e
+          · have := mem_idsOf.mp e; omega
+          · exact hacked k e
+        have f := exporterCall_fields s pos (chunkEnd c pos hi) .ok
         split at hs
         · simp at hs; subst hs
-          cases more <;> simp [afterSend, atSelect, hns, deliver, ack, PcOk, StuckBeyond] <;>
-            exact ⟨⟨by omega, hrecv'⟩, by omega⟩
-        · simp at hs; subst hs
-          simp [deliver, ack, PcOk, hns, StuckBeyond]
-          exact ⟨⟨by omega, hrecv'⟩, by omega⟩
+          exact stuck_setHandler hr1 ha1 hm (by simp [hns]) (by rw [f.1]; simp only [PcOk]; exact ⟨hlo, hlt, hle, by omega, by assumption⟩)
+        · split at hs
+          · simp [atSelect, hns] at hs; subst hs
+            exact stuck_setHandler hr1 ha1 hm (by simp [hns]) (by rw [f.1]; simp only [PcOk]; exact ⟨hlo, hlt, hle⟩)
+          · simp at hs; subst hs
+            exact stuck_exportDone hr1 ha1 (by omega) hns
       · simp at hs
     | fail => simp [Label.progress] at hp
     | lost => simp [Label.progress] at hp
+    | reject off => simp [Label.progress] at hp
   | persist i ok coin =>
     have hw : ∀ (v : Nat) (t : State), (write ok v t).recv = t.recv ∧ (write ok v t).handler = t.handler ∧
-        (write ok v t).nLogs = t.nLogs := by
+        (write ok v t).nLogs = t.nLogs ∧ (write ok v t).acked = t.acked := by
       intro v t; unfold write; split <;> simp
     simp only [step] at hs
     split at hs
     · simp at hs; subst hs
-      exact ⟨by simpa [(hw _ _).1] using hrecv, h, by simp [(hw _ _).2.1, hh], hm, hns,
-        by simpa [(hw _ _).2.2] using hok⟩
+      exact ⟨by simpa [(hw _ _).1] using hrecv, by simpa [(hw _ _).2.2.2] using hacked, h,
+        by simp [(hw _ _).2.1, hh], hm, hns, by simpa [(hw _ _).2.2.1] using hok⟩
     · split at hs
       · split at hs
         · simp at hs
@@ -63,21 +91,26 @@ theorem stuck_step {c : Cfg} {m : Nat} {s s' : State} {l : Label} (hs : step c s
           split at hs
           · simp at hs; subst hs
             rename_i more hpc
-            cases more <;> simp [afterSend, atSelect, hns, PcOk, (hw _ _).1, StuckBeyond] <;>
-              exact ⟨hrecv', hm⟩
+            have hr' : ∀ a b, (a, b) ∈ s.recv → m ≤ a := fun a b hab => hrecv (a, b) hab
+            cases more <;> simp [afterSend, atSelect, hns, PcOk, (hw _ _).1, (hw _ _).2.2.2, StuckBeyond] <;>
+              exact ⟨hr', hacked, hm⟩
           · simp at hs; subst hs
-            exact ⟨by simpa [(hw _ _).1] using hrecv, h, by simp [(hw _ _).2.1], hm, hns,
-              by simpa [(hw _ _).2.2] using hok⟩
+            exact ⟨by simpa [(hw _ _).1] using hrecv, by simpa [(hw _ _).2.2.2] using hacked, h,
+              by simp [(hw _ _).2.1], hm, hns, by simpa [(hw _ _).2.2.1] using hok⟩
       · simp at hs
   | tick =>
     simp only [step, hh] at hs
     split at hs <;> simp at hs <;> subst hs
-    · exact ⟨hrecv, _, rfl, hm, hns, by simp [PcOk]⟩
-    · exact ⟨hrecv, _, rfl, hm, hns, by split <;> simp [PcOk]⟩
+    · exact stuck_setHandler hrecv hacked hm (by simp [hns]) (by simp [PcOk])
+    · exact stuck_setHandler hrecv hacked hm (by simp [hns]) (by split <;> simp [PcOk])
     · rename_i lo hi more hpc
       simp only [PcOk, hpc] at hok
-      exact ⟨hrecv, _, rfl, hm, hns, by simpa [PcOk] using hok⟩
-    · exact ⟨hrecv, h, hh, hm, hns, hok⟩
+      exact stuck_setHandler hrecv hacked hm (by simp [hns])
+        (by simp only [PcOk, enterExport]; exact ⟨hok.1, hok.2.1, hok.2.2, by omega, hok.2.1⟩)
+    · rename_i lo hi more pos bad hpc
+      simp only [PcOk, hpc] at hok
+      exact stuck_setHandler hrecv hacked hm (by simp [hns]) (by simpa [PcOk] using hok)
+    · exact ⟨hrecv, hacked, h, hh, hm, hns, hok⟩
   | _ => simp [Label.progress] at hp
 
 theorem stuck_steps {c : Cfg} {m : Nat} {s s' : State} (a : Steps c Label.progress s s')
@@ -98,7 +131,12 @@ theorem stuck_not_delivered {m k : Nat} {s : State} (st : StuckBeyond m s) (hk :
   have := st.1 b hb
   omega
 
+theorem stuck_not_acked {m k : Nat} {s : State} (st : StuckBeyond m s) (hk : k ≤ m) : ¬ Acked s k := by
+  intro h
+  have := st.2.1 k h
+  omega
+
 theorem stuck_raceState2 : StuckBeyond 2 raceState2 := by
-  refine ⟨by simp [raceState2], _, rfl, by simp, rfl, by simp [PcOk]⟩
+  refine ⟨by simp [raceState2], by simp [raceState2], _, rfl, by simp, rfl, by simp [PcOk]⟩
 
 end Ledger.Repl
